@@ -76,6 +76,7 @@ type chunkRes struct {
 	Timing         map[string]int64 `json:"timing"`
 	Viol           []viol           `json:"viol,omitempty"`
 	Samples        []sample         `json:"samples,omitempty"`
+	Errors         []string         `json:"errors,omitempty"` // full CompileModule errors (replay mode only)
 }
 
 // ---------------------------------------------------------------------------------------------
@@ -304,6 +305,9 @@ func (c *childState) compileAll(ci, k int, in input, skipC map[[2]int]bool, res 
 				fmt.Sprintf("CompileModule (%s, %s) panicked at %s: %s", engName[engInterp], featureSets[f].Name, r.detail, r.msg), in, f)
 		case "reject":
 			res.Outcomes["reject:"+r.detail]++
+			if c.plan.hexFile != "" && len(res.Errors) < 24 {
+				res.Errors = append(res.Errors, featureSets[f].Name+": "+normalize(r.msg, 300))
+			}
 		case "accept":
 			res.Outcomes["accept"]++
 			res.AcceptedEvals++
@@ -993,6 +997,9 @@ func replayMain(file string) {
 			var r chunkRes
 			json.Unmarshal([]byte(res), &r)
 			fmt.Printf("  outcomes: %v\n", r.Outcomes)
+			for _, e := range r.Errors {
+				fmt.Printf("  CompileModule error under %s\n", e)
+			}
 			for _, v := range r.Viol {
 				fmt.Printf("  STILL FAILS [%s] %s: %s\n", v.FS, v.Sig, v.What)
 				failed = true
